@@ -26,6 +26,7 @@ def run(ck):
     ck.rule("R2", "pc, IRDst and exception_flags are immutable for the SSA transformation", floor=2)
     ck.rule("R3", "SSA simplifier pipeline order", floor=2)
     ck.rule("R4", "the aliasing test of expression propagation measures each memory access with its own base, offset and size", floor=4)
+    _merge_rules(ck)
 
     m = ck.repo.mod(DF)
     fn = m.func("DeadRemoval.is_unkillable_destination")
@@ -178,3 +179,93 @@ def run(ck):
              for x in walk_body(fn))
     ck.ob("R4", "State.may_interfer:different-bases-interfere", ok, df.where(fn), "accesses with different symbolic bases must be assumed to alias")
 
+
+
+def _merge_rules(ck):
+    """R5: merging a block into its single predecessor keeps every effect of the predecessor except its jump.
+    _do_merge_blocks iterates over ALL assignment blocks of the parent (no slice / truncation); on every path of the loop body an
+    assignment block is either kept as it is (allowed only where IRDst is known not to be in it) or rebuilt from its (dst, src)
+    pairs with the single filter dst != IRDst, and appended unless empty; the son's blocks follow; the merged block replaces the
+    parent and the son disappears from blocks and graph."""
+    from sa.pathob import undischarged, path_text
+    from sa.facts import guard_facts
+    ck.rule("R5", "block merging drops nothing of the parent block but its IRDst assignment", floor=5)
+    m = ck.repo.mod(DF)
+    fn = m.func("_do_merge_blocks")
+    par = fn.args.args[1].arg
+    cfg = CFG(fn)
+    loops = [nd for nd in cfg.nodes if nd.kind == "for" and norm(nd.ast.iter) in ("ircfg.blocks[%s]" % par, "ircfg.blocks[%s].assignblks" % par)]
+    sliced = [nd for nd in cfg.nodes if nd.ast is not None and nd.kind in ("for", "stmt") and any(
+        isinstance(x, ast.Subscript) and isinstance(x.slice, ast.Slice) and ("blocks[%s]" % par in norm(x.value) or norm(x.value) in _aliases(fn, par))
+        for x in walk_local(nd.ast.iter if nd.kind == "for" else nd.ast))]
+    ck.ob("R5", "_do_merge_blocks:walks-every-parent-assignblk", bool(loops) and not sliced, m.where(sliced[0].ast if sliced else fn),
+          "the parent's assignment blocks are %s: what shares an assignment block with IRDst (a store, a pointer update) or follows it is lost"
+          % ("taken by a slice `%s`" % norm(sliced[0].ast)[:60] if sliced else "not iterated one by one"))
+    if not loops:
+        return
+    L = loops[0]
+    blk = norm(L.ast.target)
+    facts = guard_facts(cfg)
+    appends = [nd for nd in cfg.nodes if nd.kind == "stmt" and isinstance(nd.ast, ast.Expr) and isinstance(nd.ast.value, ast.Call)
+               and callee_attr(nd.ast.value) == "append" and cfg.can_reach(L.id, nd.id)]
+    # every iteration appends, unless the rebuilt dictionary is empty
+    def empty_edge(nd, label):
+        return nd.kind == "test" and isinstance(nd.ast, ast.Name) and label is False
+    p = undischarged(cfg, lambda nd: nd in appends, edge_ok=empty_edge, start=(L.id, "iter"), targets=[L.id])
+    ck.ob("R5", "_do_merge_blocks:every-assignblk-kept", p is None, m.where(L.ast),
+          "an assignment block of the parent can be skipped: %s" % (path_text(p) if p else ""))
+    for nd in appends:
+        a = nd.ast.value.args[0] if nd.ast.value.args else None
+        if a is not None and norm(a) == blk:
+            f = facts.get(nd.id, frozenset())
+            ok = ("cmp", "ircfg.IRDst", "notin", blk) in f
+            ck.ob("R5", "_do_merge_blocks:kept-unchanged-only-without-IRDst", ok, m.where(nd.ast),
+                  "an assignment block is kept unchanged where it may still contain IRDst")
+        elif a is not None and isinstance(a, ast.Call) and (dotted(a.func) or "").endswith("AssignBlock"):
+            src = a.args[0]
+            if isinstance(src, ast.Name):
+                from sa.astutil import Resolver as _R
+                d_ = _R(fn).unique_def(src.id)
+                if isinstance(d_, ast.DictComp):
+                    src = d_
+            # the dictionary is filled for every pair but IRDst
+            fills = [n for n in walk_body(fn) if isinstance(n, ast.Assign) and isinstance(n.targets[0], ast.Subscript) and norm(n.targets[0].value) == norm(src)]
+            okf = False
+            for fl in fills:
+                fnode = cfg.node_containing(fl)
+                ff = facts.get(fnode[0].id, frozenset()) if fnode else frozenset()
+                base = facts.get(L.id, frozenset())
+                kname = norm(fl.targets[0].slice)
+                allowed = set([("cmp", kname, "!=", "ircfg.IRDst"), ("cmp", "ircfg.IRDst", "!=", kname), ("cmp", "ircfg.IRDst", "in", blk),
+                               ("true", "%s != ircfg.IRDst" % kname), ("true", "ircfg.IRDst != %s" % kname), ("true", "ircfg.IRDst in %s" % blk),
+                               ("false", "ircfg.IRDst not in %s" % blk), ("false", "%s == ircfg.IRDst" % kname), ("cmp", kname, "!=", "ircfg.IRDst")])
+                extra = [x for x in ff if x not in base and x not in allowed]
+                has = ("cmp", kname, "!=", "ircfg.IRDst") in ff or ("cmp", "ircfg.IRDst", "!=", kname) in ff
+                okf = has and not extra
+            comp = isinstance(src, (ast.DictComp,)) and len(src.generators) == 1 and len(src.generators[0].ifs) == 1 and \
+                _is_not_irdst(src.generators[0].ifs[0], src.generators[0].target)
+            ck.ob("R5", "_do_merge_blocks:rebuilt-without-IRDst-only", okf or comp, m.where(nd.ast),
+                  "the rebuilt assignment block does not contain exactly the pairs whose destination is not IRDst")
+    tail = any(isinstance(n, ast.AugAssign) and norm(n.value) in ("ircfg.blocks[son_loc_key].assignblks", "list(ircfg.blocks[son_loc_key])", "ircfg.blocks[son_loc_key]")
+               for n in walk_body(fn)) or any(isinstance(n, ast.Call) and callee_attr(n) == "extend" and "son_loc_key" in norm(n) for n in walk_body(fn))
+    ck.ob("R5", "_do_merge_blocks:son-appended", tail, m.where(fn), "the son's assignment blocks are not appended after the parent's")
+    repl = any(isinstance(n, ast.Assign) and norm(n.targets[0]) == "ircfg.blocks[%s]" % par for n in walk_body(fn))
+    ck.ob("R5", "_do_merge_blocks:parent-replaced", repl, m.where(fn), "the merged block is not stored as the parent")
+
+
+def _is_not_irdst(test, target):
+    from sa.astutil import cmp_parts
+    p = cmp_parts(test)
+    if not p or p[1] != "!=":
+        return False
+    names = [norm(e) for e in target.elts] if isinstance(target, ast.Tuple) else [norm(target)]
+    a, b = norm(p[0]), norm(p[2])
+    return (a == "ircfg.IRDst" and b == names[0]) or (b == "ircfg.IRDst" and a == names[0])
+
+
+def _aliases(fn, par):
+    out = set()
+    for n in walk_body(fn):
+        if isinstance(n, ast.Assign) and isinstance(n.targets[0], ast.Name) and norm(n.value) == "ircfg.blocks[%s]" % par:
+            out.add(n.targets[0].id)
+    return out
